@@ -133,6 +133,11 @@ def main():
             data = json.load(open(replay))
             for v in data.get("violations", []):
                 if v.get("case") is not None:
+                    for h in v.get("history", []):     # the cases that ran before it in the same process (library state)
+                        try:
+                            mod.run_case(ctx, h)
+                        except Exception:  # noqa: BLE001
+                            pass
                     mod.run_case(ctx, v["case"])
         else:
             mod.run(ctx)
